@@ -16,6 +16,7 @@ CONSTANTS
   MapPoisonP = TRUE
   GuardFactory = TRUE
   PoisonFAtParser = FALSE
+  LateUpgradeReset = TRUE
   ResumeOnPop = TRUE
   KA = 3
   LG = 1
